@@ -172,7 +172,7 @@ def evaluate(expr, inputs=None, sizes=None, recvs=None):
     return np.asarray(ev(expr))
 
 
-def close(a, b, exact=None) -> bool:
+def close(a, b, exact=None, single=False) -> bool:
     """exact for int/bool, scale-aware tolerance for float/complex; NaNs equal"""
     a, b = np.asarray(a), np.asarray(b)
     if a.shape != b.shape:
@@ -186,7 +186,7 @@ def close(a, b, exact=None) -> bool:
     with np.errstate(all="ignore"):
         fa = a.astype(np.complex128) if (a.dtype.kind == "c" or b.dtype.kind == "c") else a.astype(np.float64)
         fb = b.astype(fa.dtype)
-        single = any(d in (np.dtype("float32"), np.dtype("complex64")) for d in (a.dtype, b.dtype))
+        single = single or any(d in (np.dtype("float32"), np.dtype("complex64")) for d in (a.dtype, b.dtype))
         rtol = 2e-4 if single else 1e-9
         scale = max(1.0, float(np.nanmax(np.abs(np.where(np.isfinite(fb), fb, 0)))) if fb.size else 1.0)
         return bool(np.allclose(fa, fb, rtol=rtol, atol=rtol * scale, equal_nan=True))
